@@ -225,6 +225,9 @@ func (cw *c12world) apply(o c12op, c *core.Ctx) (ps []mon.Problem) {
 			if lens[ci] < 0 {
 				lens[ci] = 0
 			}
+			if ci > 0 && (o.I+ci+o.V)%3 == 2 {
+				lens[ci] = -1 // a nil row: that channel is zero-filled like a short one
+			}
 		}
 		ss := t.MakeSS(lens)
 		for ci := range lens {
